@@ -500,6 +500,11 @@ func TestVerifC03(t *testing.T) {
 	defer out.Close()
 	rnd := vfNewRand(out.Seed)
 
+	// --- the access settings across persistence and restart
+	// (zz_verif_C03_persist_test.go; its own stream: the cases below do not
+	// shift; first, so that these large cases share a shard with small ones)
+	c03PersistCases(t, out, vfNewRand(uint64(out.Seed)^0xC03A11CE55))
+
 	// --- IsBlockedClient
 	decide := func(allowed, blocked []string, ip netip.Addr, id string, extra ...string) {
 		a, err := newAccessCtx(allowed, blocked, nil)
@@ -628,7 +633,7 @@ func TestVerifC03(t *testing.T) {
 	decide(nil, []string{"10.0.0.7/32"}, ip("10.0.0.6"), "")
 	decide(nil, []string{"::ffff:10.0.0.7/128"}, ip("10.0.0.7"), "")
 
-	nDecide := out.Scale(1500, 30000)
+	nDecide := out.Scale(1000, 30500)
 	for i := 0; i < nDecide; i++ {
 		var allowed, blocked []string
 		switch rnd.Intn(4) {
@@ -708,7 +713,7 @@ func TestVerifC03(t *testing.T) {
 	hostCase([]*vfRule{{Pattern: "||a.test^", DTPerm: []uint16{dns.TypeAAAA}}}, "a.test", dns.TypeAAAA, "host-dnstype")
 	hostCase([]*vfRule{{Pattern: "*.a.test"}}, "a.test", dns.TypeA, "host-wildcard")
 	hostCase([]*vfRule{{Pattern: "*.a.test"}}, "c.b.a.test", dns.TypeA, "host-wildcard")
-	nHost := out.Scale(1200, 24000)
+	nHost := out.Scale(700, 24500)
 	for i := 0; i < nHost; i++ {
 		rs := c03HostRules(rnd, 4)
 		for k := 0; k < 3; k++ {
@@ -838,7 +843,7 @@ func TestVerifC03(t *testing.T) {
 		before(nil, nil, []*vfRule{{IsHost: true, Names: []string{"a.test"}}}, proxy.ProtoUDP, "", true, ip("10.0.0.1"), q(".", dns.TypeNS), 605)
 	}
 
-	nBefore := out.Scale(1500, 30000)
+	nBefore := out.Scale(1000, 30500)
 	for i := 0; i < nBefore; i++ {
 		var allowed, blocked []string
 		switch rnd.Intn(4) {
@@ -1020,7 +1025,7 @@ func TestVerifC03(t *testing.T) {
 		}))
 	}
 	rc := rnd.Fork(11)
-	nCtx := out.Scale(2500, 40000)
+	nCtx := out.Scale(1800, 40700)
 	for i := 0; i < nCtx; i++ {
 		var allowed, blocked []string
 		switch rc.Intn(4) {
@@ -1228,7 +1233,7 @@ func TestVerifC03(t *testing.T) {
 		{x: dot("a4", "10.0.0.1", 4)}, {x: dot("b1", "10.0.0.1", 1)}, {x: dot("a5", "10.0.0.1", 5)}, {rid: 1}, {rid: 2}, {rid: 3},
 	})
 	rh := rnd.Fork(12)
-	nHist := out.Scale(500, 8000)
+	nHist := out.Scale(300, 8200)
 	for i := 0; i < nHist; i++ {
 		var allowed, blocked []string
 		switch rh.Intn(5) {
